@@ -209,7 +209,12 @@ func ReadUintVariable(data []byte) (uint64, int, ExitReason) {
 			return 0, 0, ExitPanic
 		}
 
-		return binary.LittleEndian.Uint64(data[1:9]), 9, ExitContinue
+		x := binary.LittleEndian.Uint64(data[1:9])
+		if x < (uint64(1) << 56) {
+			pvmLogger.Errorf("readUintVariable: invalid encoding")
+			return 0, 0, ExitPanic
+		}
+		return x, 9, ExitContinue
 	}
 
 	l := bits.LeadingZeros8(^prefix)
